@@ -120,6 +120,11 @@ def fmt_twprge(rng, tr, style=None):
         return f"T{t}-R{r}{ew}"          # N/S missing
     if style == 7:
         return f"T{t}{ns.lower()}-R{r}{ew.lower()}"
+    if style == 9:
+        # OCR look-alikes in the numbers (needs ocr_scrub to be read)
+        tt = str(t).replace("1", "I").replace("0", "O").replace("5", "S")
+        rr = str(r).replace("1", "l").replace("0", "O")
+        return f"T{tt}{ns}-R{rr}{ew}"
     return f"T{t}{ns}-R{r}{ew}, 5th P.M."
 
 
@@ -173,7 +178,7 @@ def _gen_desc_once(rng):
                          "TR_desc_S", "S_desc_TR"))
     n_tr = rng.choice((1, 1, 1, 2, 2, 3))
     trs = gen_twprge_nums(rng, n_tr)
-    style = rng.randrange(9) if rng.random() < 0.6 else 0
+    style = rng.randrange(10) if rng.random() < 0.6 else 0
     nl = rng.choice(("\n", "\n", " ", ", "))
     out = []
     for tr in trs:
@@ -267,9 +272,13 @@ def gen_trs_string(rng):
         return "___z___z__"
     if r < 0.95:
         return "XXXzXXXzXX"
-    if r < 0.98:
+    if r < 0.965:
         return f"{t}{ns}{rg}{ew}XX"
-    return f" {t}{ns}{rg}{ew}{s:02d} "
+    if r < 0.975:
+        return f" {t}{ns}{rg}{ew}{s:02d} "
+    if r < 0.988:
+        return f"{t}{ns}{rg}{ew} {s:02d}"          # blank inside
+    return f"{t}{ns} {rg}{ew}{s:02d}"
 
 
 def gen_corpus(rng, n_desc=6, n_blocks=4, n_trs=6):
